@@ -79,13 +79,12 @@ Lemma pk_dead_fields c1 c2 : pq_D c2 = pq_D c1 ->
 Proof. unfold pq_D. intros H. inversion H. repeat split; assumption. Qed.
 
 Lemma pk_mid_re w w' c1 c2 p hdr st rh t : pj_midw w c1 p hdr st rh t -> pk_same_out c1 c2 -> jw_pre w' = jw_pre w ->
-  c_txs c2 = pj_txs w' t -> c_in_tx c2 <> Some (pj_k w') -> pj_qin c2 = jw_in w' -> pj_midw w' c2 p hdr st rh t.
+  c_txs c2 = pj_txs w' t -> (c_in_status c2 =? c_HTP_STREAM_DATA_OTHER)%Z = false -> pj_qin c2 = jw_in w' -> pj_midw w' c2 p hdr st rh t.
 Proof.
   intros [A1 A2 A3 A4 A5 A6 A7 A8 A9 A10 A11 A12 A13] [O1 O2 O3 O4] Ep Et Ei Eq.
   destruct (pk_dead_fields _ _ O2) as (D1 & D2 & D3 & D4 & D5 & D6).
   assert (Ek : pj_k w' = pj_k w) by (unfold pj_k; rewrite Ep; reflexivity).
-  constructor; rewrite ?O1, ?D1, ?D2, ?D3, ?D4, ?D5, ?O3, ?O4, ?Ek; try assumption.
-  rewrite <- Ek. exact Ei.
+  constructor; rewrite ?O1, ?D1, ?D2, ?D3, ?D4, ?D5, ?O3, ?O4, ?Ek; assumption.
 Qed.
 Lemma pk_rest_re c1 c2 txs txs' nx inn inn' : pj_rest c1 txs nx inn -> pk_same_out c1 c2 -> c_txs c2 = txs' -> pj_qin c2 = inn' -> pj_rest c2 txs' nx inn'.
 Proof.
@@ -115,19 +114,20 @@ Variables (c1 c2 : connp) (newes : list pp_ex).
 Hypothesis So : pk_same_out c1 c2.
 (* the transaction list: what precedes `junk` is kept, the transactions of the new exchanges and the new tail follow *)
 Hypothesis Ht : forall X, c_txs c1 = X ++ junk -> c_txs c2 = X ++ qp_pend newes ++ junk'.
+Hypothesis Hlive2 : (c_in_status c2 =? c_HTP_STREAM_DATA_OTHER)%Z = false.
 
-Lemma pk_betw_re esd e es' rw : c_in_tx c2 <> Some (length esd) ->
+Lemma pk_betw_re esd e es' rw :
   qp_betw g (w := qp_w junk inn esd es') (px_ps e) (px_st e) (px_rp e) (px_ls e) (px_body e) (px_t0 e) (qp_wires es') c1 rw ->
   qp_betw g (w := qp_w junk' (pj_qin c2) esd (es' ++ newes)) (px_ps e) (px_st e) (px_rp e) (px_ls e) (px_body e) (px_t0 e) (qp_wires (es' ++ newes)) c2 (rw ++ qp_wires newes).
 Proof.
-  intros Hi B.
+  intros B.
   assert (Hmid : forall p hdr st rh t, pj_midw (qp_w junk inn esd es') c1 p hdr st rh t -> pj_midw (qp_w junk' (pj_qin c2) esd (es' ++ newes)) c2 p hdr st rh t).
   { intros p hdr st rh t Hm. apply (pk_mid_re _ _ c1 c2 _ _ _ _ _ Hm So); [reflexivity| | |reflexivity].
     - unfold pj_txs. cbn [jw_pre jw_post qp_w]. rewrite pk_pend_app, <- app_assoc.
       pose proof (jm_txs _ _ _ _ _ _ Hm) as E. unfold pj_txs in E. cbn [jw_pre jw_post qp_w] in E.
       assert (E' : c_txs c1 = (qp_slots esd ++ Some t :: qp_pend es') ++ junk) by (rewrite E, <- app_assoc; reflexivity).
       rewrite (Ht _ E'), <- app_assoc. reflexivity.
-    - unfold pj_k. cbn [jw_pre qp_w]. unfold qp_slots. rewrite map_length. exact Hi. }
+    - exact Hlive2. }
   rewrite pk_wires_app.
   destruct B as [p q Hm Hpq Hq Erw|p hdr t Hm Hl|k Hk Hm Hl Erw].
   - apply (JW_line _ _ _ _ _ _ _ _ _ _ p q (Hmid _ _ _ _ _ Hm) Hpq Hq). rewrite Erw, <- !app_assoc. reflexivity.
@@ -137,22 +137,21 @@ Proof.
     + rewrite Erw, <- app_assoc. reflexivity.
 Qed.
 
-Lemma pk_rbetween_re esd es rw : (forall j, (j < length (esd ++ es))%nat -> c_in_tx c2 <> Some j) ->
+Lemma pk_rbetween_re esd es rw :
   qp_between g junk inn esd es c1 rw -> qp_between g junk' (pj_qin c2) esd (es ++ newes) c2 (rw ++ qp_wires newes).
 Proof.
-  intros Hfree [Hr Erw|e es' Ees B|e e' es'' p q Ees Hm Hpq Hq Erw].
+  intros [Hr Erw|e es' Ees B|e e' es'' p q Ees Hm Hpq Hq Erw].
   - apply JB_idle; [|rewrite Erw, pk_wires_app; reflexivity].
     apply (pk_rest_re c1 c2 _ _ _ _ _ Hr So); [|reflexivity].
     assert (E' : c_txs c1 = (qp_slots esd ++ qp_pend es) ++ junk) by (rewrite (jy_txs _ _ _ _ Hr), <- app_assoc; reflexivity).
     rewrite (Ht _ E'), pk_pend_app, <- !app_assoc. reflexivity.
-  - subst es. apply (JB_in _ _ _ _ _ _ _ e (es' ++ newes) eq_refl). apply pk_betw_re; [|exact B].
-    apply Hfree. rewrite app_length. cbn [length]. lia.
+  - subst es. apply (JB_in _ _ _ _ _ _ _ e (es' ++ newes) eq_refl). apply pk_betw_re. exact B.
   - subst es. apply (JB_fin _ _ _ _ _ _ _ e e' (es'' ++ newes) p q eq_refl); [|exact Hpq|exact Hq|].
     + apply (pk_mid_re _ _ c1 c2 _ _ _ _ _ Hm So); [reflexivity| | |reflexivity].
       * pose proof (jm_txs _ _ _ _ _ _ Hm) as E. unfold pj_txs in E |- *. cbn [jw_pre jw_post qp_w] in E |- *.
         assert (E' : c_txs c1 = (qp_slots esd ++ Some (px_tpre e) :: qp_pend (e' :: es'')) ++ junk) by (rewrite E, <- app_assoc; reflexivity).
         rewrite (Ht _ E'). change (e' :: es'' ++ newes) with ((e' :: es'') ++ newes). rewrite pk_pend_app, <- !app_assoc. reflexivity.
-      * unfold pj_k. cbn [jw_pre qp_w]. unfold qp_slots. rewrite map_length. apply Hfree. rewrite app_length. cbn [length]. lia.
+      * exact Hlive2.
     + rewrite Erw. unfold px_bwt. rewrite pk_wires_app, <- !app_assoc. reflexivity.
 Qed.
 End ReOut.
